@@ -5,7 +5,7 @@
     correspondence runs of bin/check C07); [hybrid_encode]/[hybrid_decode] are
     the format of Encodings.md written independently of the library. *)
 From Coq Require Import List NArith.
-From PQ Require Import Bytes Bitpack RleSpec Rle BitpackProofs RleSpecProofs RleEncProofs RleDecProofs RleProofs.
+From PQ Require Import Bytes Bitpack RleSpec Rle BitpackProofs RleSpecProofs RleEncProofs RleDecProofs RleProofs WriteBuffer WriteBufferProofs.
 Import ListNotations.
 Local Open Scope N_scope.
 
@@ -60,6 +60,16 @@ Theorem C07_roundtrip : forall w ls rest,
     (pad < 8)%nat.
 Proof. exact rle_roundtrip. Qed.
 Print Assumptions C07_roundtrip.
+
+(** The encoder model keeps its output as a plain byte list; buf.go's
+    writeBuffer (a slice of LENGTH `size` plus a fill index, with three
+    branches in writeAt) is modelled faithfully in PQ.WriteBuffer, and the
+    encoder run over that buffer produces exactly the same bytes, whatever the
+    initial size. *)
+Theorem C07_write_buffer_refinement : forall w size levels,
+  rle_encode_b w size levels = rle_encode w levels.
+Proof. exact rle_encode_b_eq. Qed.
+Print Assumptions C07_write_buffer_refinement.
 
 (** Non-vacuity: ten levels of width 1 — an RLE run of 9 zeros (header 0x12)
     and one bit-packed group. *)
